@@ -702,6 +702,11 @@ func (c *fnCtx) defFacts(a Atom) []Ineq {
 				ge(Const(hi).Sub(av), "field type range")
 			}
 		}
+		if f := fieldVar(a); f != nil && c.e != nil {
+			if k, ok := c.e.fieldMin[f]; ok {
+				ge(av.Sub(Const(k)), fmt.Sprintf("every store to %s is a constant >= %d", f.Name(), k))
+			}
+		}
 	}
 	return out
 }
@@ -860,4 +865,34 @@ func (c *fnCtx) guardDiseq(cond ssa.Value, pol bool) (Lin, bool) {
 		return c.lin(b.X).Sub(c.lin(b.Y)), true
 	}
 	return Lin{}, false
+}
+
+// fieldVar finds the field object at the end of root.path.
+func fieldVar(a Atom) *types.Var {
+	t := a.Root.Type()
+	if a.Path == "" {
+		return nil
+	}
+	var last *types.Var
+	for _, name := range strings.Split(a.Path, ".") {
+		if pt, ok := t.Underlying().(*types.Pointer); ok {
+			t = pt.Elem()
+		}
+		st, ok := t.Underlying().(*types.Struct)
+		if !ok {
+			return nil
+		}
+		last = nil
+		for i := 0; i < st.NumFields(); i++ {
+			if st.Field(i).Name() == name {
+				last = st.Field(i)
+				t = last.Type()
+				break
+			}
+		}
+		if last == nil {
+			return nil
+		}
+	}
+	return last
 }
